@@ -74,6 +74,13 @@ func (g *c16gen) operand(d int) *m.Node {
 	case 2:
 		return m.Op("c_id", g.b())
 	case 3:
+		switch rapid.IntRange(0, 3).Draw(g.t, "ifcond") {
+		case 0: // a literal condition, or one that folds to a literal: the other branch is still part of the operand
+			return m.If(m.Const(rapid.Bool().Draw(g.t, "ifconst")), g.b(), g.b())
+		case 1:
+			k := rapid.Int64Range(0, 1).Draw(g.t, "iffold")
+			return m.If(m.Op("=", m.Const(int64(0)), m.Const(k)), g.b(), g.b())
+		}
 		return m.If(g.b(), g.b(), g.b())
 	case 4:
 		if d > 0 {
@@ -303,10 +310,12 @@ func checkC16(c C16Case, r *Rec) *Violation {
 	// the way the option subset reaches the compiler rotates with the case: written into the map, a
 	// directive over a config that says the opposite (Reordering explicitly off in the config, switched
 	// on in the source, and vice versa), options set on a CopyConfig / ExtendConf copy of such a config
-	how := []int{HowMapAll, HowDirectiveOpp, HowCopySet, HowExtendSet, HowMapAll, HowOptionFn}[hash64(src)%6]
+	how := []int{HowMapAll, HowDirectiveOpp, HowCopySet, HowExtendSet, HowMapSparse, HowOptionFn, HowMapSparse}[hash64(src)%7]
 	r.Class(fmt.Sprintf("options-expressed-in-way-%d", how))
+	// ... and so does event mode (none, ReportEvent, Debug): reporting events changes no program (C12)
+	events := int(hash64(src)/7) % 3
 	compile := func(mask int, costs []CostEntry) (*CfgRun, *Violation) {
-		return runCfg("C16", u, src, Build{Mask: mask, How: how, Variant: int(hash64(src) % uint64(directiveVariants)), Costs: costs})
+		return runCfg("C16", u, src, Build{Mask: mask, How: how, Variant: int(hash64(src) % uint64(directiveVariants)), Costs: costs, Events: events})
 	}
 	widest, equalGroups, crossTies := 0, 0, 0
 	for base := 0; base < 8; base++ {
